@@ -1,4 +1,5 @@
 mod assets;
+mod corrupt;
 mod exec;
 mod harness;
 mod ops;
@@ -23,8 +24,30 @@ fn main() {
         eprintln!("usage: c2pasim check <ID> [--tier quick|thorough] [--seed N] [--replay file]");
         std::process::exit(2);
     }
+    let args: Vec<String> = {
+        // `--trace` may come first (spawned by the harness); normalise
+        let mut a = args;
+        if a.get(1).map(|s| s == "--trace").unwrap_or(false) {
+            let t = a.remove(1);
+            a.push(t);
+        }
+        a
+    };
     let cmd = args[1].as_str();
     let id = args[2].as_str();
+    if cmd == "dump" {
+        // dump <fmt> <default|box> : sign a tiny asset and print the detailed report
+        let f = assets::Fmt::from_name(id).expect("fmt");
+        let b = if args.get(3).map(|s| s == "box").unwrap_or(false) { sdk::Binding::Box } else { sdk::Binding::Default };
+        let ctx = std::sync::Arc::new(sdk::make_context(&sdk::binding_overlay(b)));
+        let mut r = rng::Rng::new(1);
+        let a = assets::generate(f, &mut r);
+        let s = sdk::sign_plain(&ctx, &sdk::simple_definition("dump"), "ed25519", f.mime(), &a).expect("sign");
+        let rep = sdk::read_plain(&ctx, f.mime(), &s).expect("read");
+        println!("{}", serde_json::to_string_pretty(&rep.detailed).unwrap());
+        if let Some(out) = args.get(4) { std::fs::write(out, &s).unwrap(); }
+        return;
+    }
     let Some(p) = props::get(id) else {
         eprintln!("unknown property {id}");
         std::process::exit(2);
@@ -40,7 +63,7 @@ fn main() {
         .unwrap_or(1);
     // silence the default panic message flood from caught panics in workers
     if cmd != "check" {
-        std::panic::set_hook(Box::new(|_| {}));
+        sdk::install_panic_hook();
     }
     match cmd {
         "check" => {
